@@ -449,7 +449,7 @@ func crashRecord(b builds, cfg tierCfg, c crashInfo) *proto.Record {
 }
 
 func newAgg() *simAgg {
-	return &simAgg{policy: map[string]int{}, faults: map[string]int{}, probes: map[string]int{}, tasksHist: make([]int, 17),
+	return &simAgg{policy: map[string]int{}, faults: map[string]int{}, probes: map[string]int{}, tasksHist: make([]int, 65),
 		perBuild: map[string]int64{}, sigAll: map[string]map[int]uint64{"race": {}, "plain": {}}, runsByProc: map[string]map[int]int{"race": {}, "plain": {}}}
 }
 
